@@ -438,7 +438,8 @@ def relation(exp, obs):
         o = odata.get(d["name"])
         wit = f"{d['kind']}/{d['assoc']}"
         if o is None:
-            bad.append(("keeps-its-value", wit, {"object": exp["name"], "data": d["name"], "problem": "data missing"}))
+            if d["vals"] is not None:  # a data child without stored values has nothing to lose
+                bad.append(("keeps-its-value", wit, {"object": exp["name"], "data": d["name"], "problem": "data missing"}))
             continue
         if d["vals"] is None or isinstance(o["vals"], dict):
             if d["vals"] is None and o["vals"] is not None:
@@ -511,8 +512,9 @@ def judge(before, op, expect, after_model, feats, raised, obs, stage):
     out = []
     f_before = get_obj(before, before["focus"])
     fam = FAMILY[f_before["cls"]]
-    head = f"{fam}.{opname(op)}"
-    geo_feats = [x for x in feats if x in ("no-cell-touched", "removes-all", "valueless-data", "keeps-none", "keeps-all", "index-out-of-range")]
+    # removal / object copy code differs between Points and CellObject; data-level operations do not
+    head = f"{fam}.{opname(op)}" if op[0] in ("rv", "rc", "cp", "cc", "ro") else opname(op)
+    geo_feats = [x for x in feats if x in ("no-cell-touched", "removes-all", "keeps-none", "keeps-all", "index-out-of-range")]
     ftxt = f"[{','.join(geo_feats)}]" if geo_feats else ""
     pre = "" if stage == "live" else "after re-open: "
 
@@ -523,7 +525,7 @@ def judge(before, op, expect, after_model, feats, raised, obs, stage):
 
     if raised is not None:
         if expect == "ok" and op[0] in ("sv", "ad") and op[2] == "short":
-            out.append(("shorter-padded", f"{pre}{head} {feats[-2]} refused", {"raised": raised}))
+            out.append(("shorter-padded", f"{pre}{feats[-2]} array refused", {"raised": raised, "op": op}))
         # "an operation that fails leaves geometry and data mutually consistent"
         detail = [dict(d, clause=c, what=w) for c, w, d in inv if "unreadable" not in w]
         # a cell that is still there must connect coordinates it connected before
@@ -537,11 +539,11 @@ def judge(before, op, expect, after_model, feats, raised, obs, stage):
                                "now_connect": [_ckey(o, c) for c in moved]})
         if detail:
             out.append(("failed-operation-leaves-consistent", f"{pre}{head}{ftxt} raised {raised}", detail[:4]))
-        out += [(c, pre + w, d) for c, w, d in inv if "unreadable" in w]
+        out += [(c, w, d) for c, w, d in inv if "unreadable" in w]
         return out
 
     if expect == "refuse":
-        out.append(("longer-refused", f"{pre}{head} {feats[-2]} accepted", {"op": op}))
+        out.append(("longer-refused", f"{pre}{feats[-2]} array accepted", {"op": op}))
         # what the statement says about the state still applies; fall through on the model's
         # (unchanged) state for everything but the data that took the longer array
     rel = []
@@ -566,13 +568,13 @@ def judge(before, op, expect, after_model, feats, raised, obs, stage):
             seen_len.add((d["object"], d["data"]))
             on_target = d["object"] == before["focus"] and d["data"] == target
             if special == "shorter-padded" and on_target:
-                out.append((special, f"{pre}{head} {w} not padded to the element count", d))
+                out.append((special, f"{pre}{w} array not padded to the element count", dict(d, op=op)))
             elif special == "longer-refused" and on_target:
                 pass  # already reported as accepted
             else:
                 out.append(("one-entry-per-element", f"{pre}{head}{ftxt} {w}", d))
         elif c == "keeps-its-value" and special == "shorter-padded" and d.get("data") == target and d["object"] == before["focus"]:
-            out.append((special, f"{pre}{head} {w} wrong padding or prefix", d))
+            out.append((special, f"{pre}{w} array wrong padding or prefix", dict(d, op=op)))
         else:
             out.append((c, f"{pre}{head}{ftxt} {w}".rstrip(), d))
     for c, w, d in inv:
@@ -581,7 +583,7 @@ def judge(before, op, expect, after_model, feats, raised, obs, stage):
         if c == "one-entry-per-element" and expect == "refuse" and d["object"] == before["focus"] and d["data"] == target:
             continue  # the accepted longer array: already reported as longer-refused
         if "unreadable" in w:
-            out.append((c, pre + w, d))
+            out.append((c, w, d))
         else:
             out.append((c, f"{pre}{head}{ftxt} {w}".rstrip(), d))
     # de-duplicate signatures within one execution
